@@ -14,6 +14,7 @@ import (
 	"fmt"
 	"math"
 	"math/rand"
+	"slices"
 	"time"
 
 	"github.com/creachadair/mds/mlink"
@@ -87,6 +88,24 @@ func c10seqExec(c *Ctx, x *c10seq, op Op, rng *rand.Rand) Ev {
 		}
 		o := x.obj()
 		n := o.Len()
+		if has(op, "full") && geti(op, "full") == 2 || !has(op, "full") && !has(op, "offs") && rng != nil && rng.Intn(4) == 0 {
+			// sparse observation: at most one Peek, nothing else, before the next call
+			ev["full"] = 2
+			offs := []int{}
+			if has(op, "offs") {
+				offs = getis(op, "offs")
+			} else if rng.Intn(2) == 0 {
+				offs = []int{rng.Intn(n + 2)}
+			}
+			ev["offs"] = ints(offs)
+			peeks := make([][3]int, 0, len(offs))
+			for _, k := range offs {
+				pv, ok := o.Peek(k)
+				peeks = append(peeks, [3]int{k, pv, b2i(ok)})
+			}
+			ev["peeks"] = peeks
+			return
+		}
 		ev["len"], ev["empty"] = n, o.IsEmpty()
 		if x.kind == "stack" {
 			ev["front"] = x.s.Top()
@@ -112,6 +131,16 @@ func c10seqExec(c *Ctx, x *c10seq, op Op, rng *rand.Rand) Ev {
 		} else {
 			for k := 0; k <= n+1; k++ {
 				offs = append(offs, k)
+			}
+			if rng != nil { // vary which offsets were looked at last before the next call, and in which order
+				switch rng.Intn(4) {
+				case 1:
+					offs = []int{rng.Intn(n + 1)}
+				case 2:
+					slices.Reverse(offs)
+				case 3:
+					offs = []int{}
+				}
 			}
 		}
 		ev["offs"] = ints(offs)
